@@ -219,6 +219,25 @@ func (r *runner) emit(ev *traceEvent) {
 	if r.trace == nil {
 		return
 	}
+	// the TLA+ Json module has no null
+	if ev.AtFetch == nil {
+		ev.AtFetch = []string{}
+	}
+	if ev.Trusted == nil {
+		ev.Trusted = []string{}
+	}
+	if ev.Tail.Replaced == nil {
+		ev.Tail.Replaced = []string{}
+	}
+	if ev.Tail.NotAtomic == nil {
+		ev.Tail.NotAtomic = []string{}
+	}
+	if ev.State.M == nil {
+		ev.State.M = map[string]entryObs{}
+	}
+	if ev.Tomb.S == nil {
+		ev.Tomb.S = []string{}
+	}
 	b, _ := json.Marshal(ev)
 	_, _ = r.trace.Write(b)
 	_ = r.trace.WriteByte('\n')
